@@ -149,6 +149,19 @@ def check(scratch, a, t0):
             findings.append(mk(opn, (l, r), "static-kind-differs", level, op, [rt_kind(l), rt_kind(r)], None, "static result type %s is not a native kind" % res))
             continue
         obligations(opn, (l, r), level, op, [rt_kind(l), rt_kind(r)], res)
+        if opn.endswith("Assign"):
+            # (c) `x op= y` stores the result back into x: for ALL operand values the stored value must still have x's kind
+            s_ = summary(level, op, [rt_kind(l), rt_kind(r)])
+            wrong = [p for p in s_.paths if p.outcome == "ok" and p.rkind != rt_kind(l)]
+            cond = z3.Or(*[p.cond() for p in wrong]) if wrong else z3.BoolVal(False)
+            r_, vals = Q.decide(cond, s_, qs, timeout_ms, V.seed(), "%s[%s,%s]:assign-keeps-kind" % (opn, l, r))
+            if r_ == "sat":
+                vals = [0x61 if k == "Str" else v for k, v in zip([rt_kind(l), rt_kind(r)], vals)]
+                f = mk(opn, (l, r), "assign-changes-variable-kind", level, op, [rt_kind(l), rt_kind(r)], vals,
+                       "`x %s y` with x: %s, y: %s is accepted, but the value stored back into x has kind %s (typeof x still says %s)"
+                       % (SYMBOLS[opn], l, r, wrong[0].rkind, l))
+                f.expect_kind = rt_kind(l)
+                findings.append(f)
     for k, ok in sorted(neg.items()):
         if ok:
             accepted += 1
@@ -168,7 +181,9 @@ def check(scratch, a, t0):
         for i, f in enumerate(findings):
             if ("w%d" % i) in res:
                 f.native = list(res["w%d" % i])
-                if f.cls == "static-accepts-runtime-rejects":
+                if f.cls == "assign-changes-variable-kind":
+                    f.confirmed = f.native[0] == "OK" and f.native[1] != f.expect_kind
+                elif f.cls == "static-accepts-runtime-rejects":
                     f.confirmed = f.native[0] in ("ERR", "PANIC")
                 else:
                     stat = cells.get(tuple(f.arm.split(",")) + (f.op,)) if f.op not in ("negate", "not") else None
@@ -250,7 +265,10 @@ def replay(scratch, path):
         return V.EXIT_OK
     res = N.NativeBytecode(scratch).eval([("r0", d["native_op"], w)], False)["r0"]
     print("run time now returns", res)
-    rep = (res[0] in ("ERR", "PANIC")) if d["class"] == "static-accepts-runtime-rejects" else (res[0] == "OK" and res[1] != stat)
+    if d["class"] == "assign-changes-variable-kind":
+        rep = res[0] == "OK" and res[1] != rt_kind(arm[0])
+    else:
+        rep = (res[0] in ("ERR", "PANIC")) if d["class"] == "static-accepts-runtime-rejects" else (res[0] == "OK" and res[1] != stat)
     if rep:
         print("VIOLATION property=C02 replay=%s" % path)
         return V.EXIT_VIOLATION
